@@ -181,6 +181,11 @@ func (w *world) runtimeTxs() []txT {
 		nodeTx("node3-new validator+compute for e1", rtNode(k.NodeDescriptor(3, 1, 13, node.RoleValidator|node.RoleComputeWorker)), k.NodeSigners(3), k.Nodes[3].NodeSigner),
 		nodeTx("node3-new compute for e1", rtNode(k.NodeDescriptor(3, 1, 13, node.RoleComputeWorker)), k.NodeSigners(3), k.Nodes[3].NodeSigner),
 		nodeTx("node3-new observer+runtime for e1", rtNode(k.NodeDescriptor(3, 1, 13, node.RoleObserver)), k.NodeSigners(3), k.Nodes[3].NodeSigner),
+		// a live node of e1 that already serves the runtime (as a validator only) adds a role: the admission
+		// policy (when the runtime has one) must be checked again
+		nodeTx("node3-new validator+runtime for e1", rtNode(k.NodeDescriptor(3, 1, 13, node.RoleValidator)), k.NodeSigners(3), k.Nodes[3].NodeSigner),
+		nodeTx("node1-renew adding the observer role", rtNode(k.NodeDescriptor(1, 1, 13, node.RoleValidator|node.RoleComputeWorker|node.RoleObserver)), k.NodeSigners(1), k.Nodes[1].NodeSigner),
+		nodeTx("node0-renew adding the observer role", rtNode(k.NodeDescriptor(0, 0, 13, node.RoleValidator|node.RoleComputeWorker|node.RoleObserver)), k.NodeSigners(0), k.Nodes[0].NodeSigner),
 		nodeTx("node3-new compute for e0 (not listed)", rtNode(k.NodeDescriptor(3, 0, 13, node.RoleComputeWorker)), k.NodeSigners(3), k.Nodes[3].NodeSigner),
 		nodeTx("node2-renew compute without runtimes", k.NodeDescriptor(2, 2, 13, node.RoleValidator|node.RoleComputeWorker), k.NodeSigners(2), k.Nodes[2].NodeSigner),
 		{Name: "executor-commit(n0,empty)", Signer: k.Nodes[0].NodeSigner, Method: roothash.MethodExecutorCommit, Body: roothash.ExecutorCommit{ID: rid}},
